@@ -702,7 +702,7 @@ def work(item):
     if scn.refold:
         cls = "keytype-override:inherited-names-keep-base-normal-form"
     else:
-        cls = "mismatch:" + feats
+        cls = "composed-differs-from-expansion"
     distinct = set()
     oc, sc = load_schema(os.path.join(sdir, "main.xml"), True)
     oe, se = load_schema(expanded, False)
@@ -710,7 +710,8 @@ def work(item):
                      "expanded": expanded} if idx < 2 else None)
     if oc != oe:
         col.violation("C11:schema-load:%s" % cls,
-                      "composed and expanded schema load differently",
+                      "composed and expanded schema load differently"
+                      " (features: %s)" % feats,
                       shown, "expanded: %s %s" % (oe, se if oe != "ok" else ""),
                       "composed: %s %s" % (oc, sc if oc != "ok" else ""))
     if oc == "ok" and oe == "ok":
@@ -733,7 +734,7 @@ def work(item):
                 col.violation(
                     "C11:%s" % cls,
                     "same text, different outcome against composed and"
-                    " expanded schema",
+                    " expanded schema (features: %s)" % feats,
                     dict(shown, text=text), "expanded: %r" % (b,),
                     "composed: %r" % (a,))
             if a[0] == "raw":
@@ -752,7 +753,7 @@ def run(tier, seed):
     nscn = 12000 if tier == "thorough" else 1600
     ntexts = 60 if tier == "thorough" else 40
     tmp = tempfile.mkdtemp(prefix="c11_")
-    root = "c11r%d_%d" % (os.getpid(), seed)
+    root = "c11r%d" % seed
     try:
         d = os.path.join(tmp, root)
         for _lvl in range(3):
